@@ -1213,6 +1213,33 @@ class Engine:
                 self.assumptions.add('lists / dicts held in object attributes are owned by the object (no aliases)')
                 self.setattr_(owner, v.func.value.attr, T(new), v.func.value)
                 return
+        if isinstance(v, ast.Call) and isinstance(v.func, ast.Attribute) and v.func.attr == 'sort' \
+                and isinstance(v.func.value, ast.Attribute) and not v.args:
+            owner = self.eval(v.func.value.value, fr)
+            if isinstance(owner, T):
+                # o.attr.sort() / o.attr.sort(key=lambda x: x.<name>) on a list held in an object attribute: the
+                # attribute is replaced by sorted(old) -- an uninterpreted function of the old list and the key, of
+                # which only "is sorted by that key" and "is a permutation of the old list" are known (library axiom SORT)
+                key = None
+                for kw in v.keywords:
+                    if kw.arg == 'key' and isinstance(kw.value, ast.Lambda) and len(kw.value.args.args) == 1 \
+                            and isinstance(kw.value.body, ast.Attribute) and isinstance(kw.value.body.value, ast.Name) \
+                            and kw.value.body.value.id == kw.value.args.args[0].arg:
+                        key = kw.value.body.attr
+                    else:
+                        self.unsupported(st, 'list.sort with this kind of argument')
+                cur = self.getattr_(owner, v.func.value.attr, v.func.value)
+                ct = self.lift(cur)
+                self.fail_if(z3.Not(Val.is_VList(ct)), AttributeError, 'sort on a non-list')
+                kname = key if key is not None else '<natural order>'
+                f = z3.Function('SortedList_' + kname, vals.VS, vals.VS)
+                new = f(ct)
+                self.axiom(z3.And(Val.is_VList(new), Val.llen(new) == Val.llen(ct)))
+                self.axiom(z3.Function('IsSortedBy_' + kname, vals.VS, z3.BoolSort())(new))
+                self.axiom(z3.Function('PermutationOf', vals.VS, vals.VS, z3.BoolSort())(new, ct))
+                self.assumptions.add('library axiom SORT: list.sort(key) leaves a permutation of the list that is sorted by the key')
+                self.setattr_(owner, v.func.value.attr, T(new), v.func.value)
+                return
         if isinstance(v, ast.Call) and isinstance(v.func, ast.Attribute) and v.func.attr == 'update' \
                 and isinstance(v.func.value, ast.Name) and len(v.args) == 1 and not v.keywords:
             cur = self.eval(v.func.value, fr)
